@@ -351,6 +351,11 @@ pub fn run_timed(cfg: &Cfg, steps: &[TimedStep], table: &Table) -> TimedRun {
 
 /// as `run_timed`; `after(i)` is called when portion i has been consumed, before the clock moves
 pub fn run_timed_with(cfg: &Cfg, steps: &[TimedStep], table: &Table, after: impl Fn(usize)) -> TimedRun {
+    run_timed_iter(cfg, &mut steps.iter().cloned(), table, after)
+}
+
+/// as `run_timed_with`, the portions being produced on demand (streams too long to hold in memory)
+pub fn run_timed_iter(cfg: &Cfg, steps: &mut dyn Iterator<Item = TimedStep>, table: &Table, after: impl Fn(usize)) -> TimedRun {
     use crate::shim;
     let mut rep = TimedRun { outcome: Outcome::Ok, elapsed_ms: 0, all_consumed: true, machinery: None };
     let _ = std::fs::remove_file(&cfg.path);
@@ -389,7 +394,7 @@ pub fn run_timed_with(cfg: &Cfg, steps: &[TimedStep], table: &Table, after: impl
             shim::real_sleep_us(20);
             rfd = other_fd_on(&cfg.path, wfd);
         }
-        for (si, s) in steps.iter().enumerate() {
+        for (si, s) in steps.enumerate() {
             WD_SINCE_MS.store(mono_ms(), SeqCst);
             let mut off = 0usize;
             while off < s.bytes.len() {
